@@ -726,3 +726,83 @@ def nested_inline_program(rng, inline=True):
             calls.append('Y--;')
     L.append('void main() { %s }' % ' '.join(calls))
     return '\n'.join(L) + '\n'
+
+
+def directed_programs():
+    """A FIXED enumeration of small programs over the bait families (what the random baits draw from):
+    every (update form x object kind x zero-test form), repeated register loads around a flag-setting
+    statement, tests of another element, results of functions that end on something else than a load,
+    register / hardware-statement interplay, 16-bit ++/-- as an operand.  Deterministic: the same
+    programs every run, so a change that breaks one of these shapes cannot be missed by sampling."""
+    V = lambda n: ('var', n)
+    N = lambda n: ('num', n)
+    asg = lambda lv, e: ('expr', ('asg', '=', lv, e))
+    out = {}
+
+    def mk(name, main, funcs=(), hw=False, extra=()):
+        p = Prog()
+        p.globals = [('unsigned char', n, None, None, '') for n in ('a', 'b', 'c', 'd')]
+        p.globals += [('unsigned short', 's', None, None, ''), ('short', 't', None, None, ''), ('unsigned char', 'arr', None, 8, ''),
+                      ('unsigned char', 'i', None, None, ''), ('unsigned char', 'j', None, None, ''), ('unsigned char', 'g', None, None, '')]
+        p.globals += list(extra)
+        if hw:
+            p.globals.append(('unsigned char *const', 'HW0', 0x02, None, ''))
+        p.funcs = [dict(f) for f in funcs]
+        p.main = list(main)
+        out[name] = p
+
+    then_else = lambda k: (('block', [asg(V('c'), N(k))]), ('block', [asg(V('c'), N(k + 1))]))
+    # A. an update immediately followed by a zero test of the same object
+    objs = [('u8', V('a')), ('u16', V('s')), ('s16', V('t')), ('elx', ('idx', 'arr', V('X'))), ('el2', ('idx', 'arr', N(2)))]
+    upds = [('pre++', lambda x: ('expr', ('inc', '++x', x))), ('post++', lambda x: ('expr', ('inc', 'x++', x))),
+            ('pre--', lambda x: ('expr', ('inc', '--x', x))), ('post--', lambda x: ('expr', ('inc', 'x--', x))),
+            ('+=1', lambda x: ('expr', ('asg', '+=', x, N(1)))), ('-=1', lambda x: ('expr', ('asg', '-=', x, N(1))))]
+    tsts = [('x', lambda x: x), ('x!=0', lambda x: ('bin', '!=', x, N(0))), ('x==0', lambda x: ('bin', '==', x, N(0))), ('!x', lambda x: ('un', '!', x))]
+    for on, x in objs:
+        for un, u in upds:
+            for tn, t in tsts:
+                th, el = then_else(8)
+                mk('A_%s_%s_%s' % (on, un, tn), [u(x), ('if', t(x), th, el)])
+    # B. the same constant loaded twice into a register, a flag-setting statement in between, a zero test
+    for reg in ('X', 'Y'):
+        other = 'Y' if reg == 'X' else 'X'
+        for kk in (0, 5):
+            for mn, mid in (('zero', asg(V('a'), N(0))), ('one', asg(V('a'), N(1))), ('other+1', asg(V('a'), ('bin', '+', V(other), N(1)))),
+                            ('and', asg(V('a'), ('bin', '&', V('b'), N(1)))), ('other', asg(V('a'), V(other)))):
+                for tn, t in tsts[:3]:
+                    th, el = then_else(16)
+                    mk('B_%s_%d_%s_%s' % (reg, kk, mn, tn), [asg(V(reg), N(kk)), mid, asg(V(reg), N(kk)), ('if', t(V(reg)), th, el)])
+    # C. an update of one element, a test of another element of the same array
+    for un, u in upds[:4] + [('=b', lambda x: asg(x, V('b'))), ('=0', lambda x: asg(x, N(0)))]:
+        for tn, t in tsts:
+            th, el = then_else(18)
+            mk('C_%s_%s' % (un, tn), [u(('idx', 'arr', N(1))), ('if', t(('idx', 'arr', N(3))), th, el)])
+    # D. results of functions whose last instruction is not a load of the result
+    for rn, ret in (('g++', ('inc', 'x++', V('g'))), ('g--', ('inc', 'x--', V('g'))), ('g+1', ('bin', '+', V('g'), N(1)))):
+        for inl in (False, True):
+            for wrap in (False, True):
+                funcs = [dict(name='cnt', ret='unsigned char', params=[], inline=inl, body=[('return', ret)])]
+                top = 'cnt'
+                if wrap:
+                    funcs.append(dict(name='wrap', ret='unsigned char', params=[], inline=inl, body=[('return', ('call', 'cnt', []))]))
+                    top = 'wrap'
+                call = ('call', top, [])
+                for tn, t in tsts[:3]:
+                    th, el = then_else(13)
+                    mk('D_%s_%d%d_%s' % (rn, inl, wrap, tn), [('if', t(call), th, el)], funcs)
+                mk('D_%s_%d%d_s' % (rn, inl, wrap), [asg(V('s'), call)], funcs)
+                mk('D_%s_%d%d_a' % (rn, inl, wrap), [asg(V('a'), call), asg(V('b'), call)], funcs)
+    # E. a register assignment, an explicit hardware statement, a zero test of the register
+    for reg in ('X', 'Y'):
+        for mn, mid in (('load0', ('load', N(0))), ('loadb', ('load', V('b'))), ('storeb', ('store', V('d'))), ('strobe', ('strobe', 'HW0')),
+                        ('csleep', ('csleep', 5))):
+            for tn, t in tsts[:3]:
+                th, el = then_else(15)
+                mk('E_%s_%s_%s' % (reg, mn, tn), [asg(V(reg), V('a')), mid, ('if', t(V(reg)), th, el)], hw=True)
+    # F. ++/-- of a 16-bit variable as an operand
+    for iname in ('++x', '--x', 'x++', 'x--'):
+        inc = ('inc', iname, V('s'))
+        for en, e in (('>>8', ('bin', '>>', inc, N(8))), ('<<8', ('bin', '<<', inc, N(8))), ('+256', ('bin', '+', inc, N(256))), ('&255', ('bin', '&', inc, N(255))), ('plain', inc)):
+            for tgt in ('t', 'a'):
+                mk('F_%s_%s_%s' % (iname, en, tgt), [asg(V(tgt), e)])
+    return out
